@@ -1,5 +1,6 @@
 """C16 — Editor positions and byte offsets convert exactly in both directions (unit discipline only)."""
 from facts import callee_of
+import re
 import pathrules as P
 import mirflow as MF
 import units as U
@@ -384,6 +385,38 @@ def r9_location_pair(c, facts, rule='C16.R9'):
     c.floor(R, 'text edits built by rename_variable', n, 2)
 
 
+def r13_range_verbatim(c, facts, rule='C16.R13'):
+    """what the client is sent is the converted range itself: a range that is widened, shifted or otherwise touched up
+    after the conversion (`range.end.character += 1` for an empty one) no longer selects the span's text - and can point
+    past the end of its line"""
+    R = c.rule(rule, 'RANGE-VERBATIM: a converted range reaches the client unchanged: no component of an lsp_types::Range / Position is written after the conversion')
+    n = 0
+    for q in ('oal_client::lsp::Workspace::diagnostic', 'oal_client::lsp::handlers::node_location', 'oal_client::lsp::handlers::prepare_rename',
+              'oal_client::lsp::handlers::rename_variable', 'oal_client::lsp::handlers::rename_qualifier', 'oal_client::lsp::handlers::find_references'):
+        fn0 = facts.fn(q) or facts.fn(ALTERNATIVE.get(q, ''))
+        if fn0 is None or not fn0.mir:
+            continue
+        fn = facts.normalised(fn0)
+        n += 1
+        touched = []
+        for b, blk in fn.blocks():
+            for st in blk['stmts']:
+                if st['s'] != 'assign' or not st['place']['proj']:
+                    continue
+                root_ty = fn.mir['locals'][st['place']['l']].get('ty', '') if st['place']['l'] < len(fn.mir['locals']) else ''
+                owners = [p.get('owner', '') for p in st['place']['proj'] if p['p'] == 'field']
+                if re.search(r'lsp_types::(Range|Position)\b', root_ty) or any(o.endswith(('lsp_types::Range', 'lsp_types::Position')) for o in owners):
+                    # filling a freshly built Diagnostic / Location is not a post-processing of a range
+                    if root_ty.endswith(('lsp_types::Range', 'lsp_types::Position')) or any(o.endswith(('lsp_types::Range', 'lsp_types::Position')) for o in owners):
+                        touched.append('.'.join(MF.field_path(st['place'])) or 'range')
+        inst = {'fn': q}
+        if touched:
+            c.bad(R, '%s:range-written-after-conversion:%s' % (q.split('::')[-1], ','.join(sorted(set(touched)))), '%s writes %s of a range after it was converted: the range sent no longer selects the text of the span' % (q, sorted(set(touched))), **inst)
+        else:
+            c.ok(R, inst)
+    c.floor(R, 'functions that hand a converted range to the client', n, 3)
+
+
 def r10_monotone_column(c, facts, rule='C16.R10'):
     """the column counter grows by 1 or 2 UTF-16 units per character, so a requested column can be stepped over (a
     position inside a surrogate pair): the scan must stop when the counter has *reached* the column (>=), not when it is
@@ -509,6 +542,7 @@ def run(c, facts):
     import c11
     R7 = c.rule('C16.R7', 'LOADER-TEXT: the server parses exactly the text it holds for the document, so tree spans are byte offsets into the text positions are converted with (shared with C11.R1)')
     c.shared(R7, c11.r1_lex_range, 'C11.R1', facts)
+    c.run(r13_range_verbatim, facts)
     c.run(r5_same_text, facts)
     c.run(lambda c: run_units(c, facts))
     c.run(r3_clamp, facts)
